@@ -196,7 +196,8 @@ func (x *Exec) mapGetSpec(c *CEnv, mv, k Value) Value {
 	mi := x.mapInfoOf(mv.T)
 	v := x.mapGet(c.heap(), mi, mv.X, k)
 	x.assumeLoaded(c.heap(), v)
-	return v
+	// Go semantics: a missing key reads as the zero value
+	return x.mergeValues(x.mapHas(c.heap(), mi, mv.X, k), v, x.zeroValue(mi.vt))
 }
 
 func (x *Exec) rangeInit(fr *Frame, st *State, i *ssa.Range) { unsupported("range over map/string") }
